@@ -33,9 +33,9 @@ def build(r):
     if r.random() < 0.6:
         # names are the user's: the same few names in another order from one problem to the next (several problems live in one
         # process), names that are prefixes of each other, names with blanks
-        for c_, nm_ in zip(p.costs, r.sample(["mass", "loss", "cost", "f", "f_1", "f_10", "eff iciency"], m)):
+        for c_, nm_ in zip(p.costs, r.sample(["mass", "loss", "cost", "f", "f_1", "f_10", "eff iciency", "P", "p", "T", "t", "Mass"], m)):
             c_["name"] = nm_
-        for q_, nm_ in zip(p.parameters, r.sample(["x", "x_1", "x_10", "width", "height", "a b", "mass_"], n)):
+        for q_, nm_ in zip(p.parameters, r.sample(["x", "x_1", "x_10", "width", "height", "a b", "mass_", "X", "Width", "w", "W"], n)):
             q_["name"] = nm_
     if r.random() < 0.15:
         p.costs[0].pop("criteria")   # criteria absent means minimise
